@@ -113,12 +113,20 @@ class Check:
         return bool(cond)
 
     def floor(self, rule, what, count, minimum):
-        """Fail closed when a rule matches fewer instances than were confirmed by hand."""
+        """Fail closed when a rule matches fewer instances than were confirmed by hand: recorded as an
+        analysis error of this run (exit 2 unless the run also found a violation), the remaining
+        rules still run."""
         if count < minimum:
-            raise AnalysisError(
+            self.defer(
                 f"{rule}: found {count} {what}, expected at least {minimum} "
                 "(anchor moved or rule became vacuous)"
             )
+
+    def defer(self, msg):
+        if not hasattr(self, "deferred"):
+            self.deferred = []
+        if msg not in self.deferred:
+            self.deferred.append(msg)
 
     def need(self, cond, msg):
         if not cond:
